@@ -59,9 +59,58 @@ NOVERB = 9
 # ---------------------------------------------------------------------------------------------
 # building a fresh result of every kind
 
+# Degenerate but legal binnings (edges of n bins), rotated over the inputs of every kind that is built on datasets / has a
+# plot representation; '+zerr' in the flavour: the first bin has a zero error on both sides and equal values (the documented
+# 0/0 -> t = 0, success, of the Student test).  Flavour = '<1d|2d-nan>[+<binning>][+zerr]'.
+def _rep(n, k):
+    edges = np.arange(n + 1, dtype=float)
+    edges[k + 1] = edges[k]
+    return edges
+
+
+BINNINGS = {
+    'uniform': lambda n: np.arange(n + 1, dtype=float),
+    'rep2': lambda n: _rep(n, 1),                  # repeated edge: the second bin has no width
+    'rep-2': lambda n: _rep(n, n - 2),             # ... the second-to-last bin
+    'repmid': lambda n: _rep(n, n // 2),           # ... a bin in the middle
+    'single': lambda n: np.array([0.0, 1.0]),      # one bin
+    'huge': lambda n: np.concatenate(([-1e12], np.arange(1, n, dtype=float), [1e12])),      # width ratio ~1e12 at both ends
+    'decr': lambda n: np.arange(n, -1, -1, dtype=float),       # decreasing edges
+}
+BINNING_ROT = ['uniform', 'rep2+zerr', 'uniform', 'rep-2+zerr', 'uniform', 'repmid+zerr', 'huge', 'uniform', 'single+zerr', 'decr+zerr']
+NO_ZERR = [False]      # set while the inputs of a kind whose expected verdict a zero error would change are built (chi2: 0/0 fails)
+
+
+def _flavour():
+    parts = FLAVOUR[0].split('+')
+    binning = next((p for p in parts[1:] if p in BINNINGS), 'uniform')
+    return parts[0], binning, 'zerr' in parts[1:] and not NO_ZERR[0]
+
+
+def with_binning(n, k):
+    """Flavour number k of the rotation on top of the base flavour."""
+    base = n.split('+')[0]
+    return base if BINNING_ROT[k % len(BINNING_ROT)] == 'uniform' else base + '+' + BINNING_ROT[k % len(BINNING_ROT)]
+
+
+def _degenerate(vals, errs, name, binning, zerr, rows):
+    vals, errs = list(vals), list(errs)
+    if binning != 'uniform':      # two more bins (so that second / middle / second-to-last are different bins), or a single one
+        vals, errs = vals + [vals[0] * 2.5, vals[1] * 0.75], errs + errs[:2]
+        if binning == 'single':
+            vals, errs = vals[:rows], errs[:rows]
+    if zerr:
+        errs[0] = 0.0
+        if name != 'far':
+            vals[0] = 1.0
+    return vals, errs
+
+
 def _ds(vals, errs, name):
     from valjean.eponine.dataset import Dataset
-    bins = OrderedDict([('e', np.arange(len(vals) + 1, dtype=float))])
+    _, binning, zerr = _flavour()
+    vals, errs = _degenerate(vals, errs, name, binning, zerr, 1)
+    bins = OrderedDict([('e', BINNINGS[binning](len(vals)))])
     return Dataset(np.array(vals, dtype=float), np.array(errs, dtype=float), bins=bins, name=name, what='flux')
 
 
@@ -70,12 +119,16 @@ FLAVOUR = ['1d']      # '1d' (default) or '2d-nan': 2-d datasets, the failing on
 
 def _ds2(vals, errs, name):
     from valjean.eponine.dataset import Dataset
-    bins = OrderedDict([('e', np.arange(3, dtype=float)), ('t', np.arange(3, dtype=float) * 10.0)])
-    return Dataset(np.array(vals, dtype=float).reshape(2, 2), np.array(errs, dtype=float).reshape(2, 2), bins=bins, name=name, what='flux')
+    _, binning, zerr = _flavour()
+    if binning == 'single':      # a 2-d dataset with a single bin along one axis is squeezed by the plot representation, which then raises
+        binning = 'uniform'
+    vals, errs = _degenerate(vals, errs, name, binning, zerr, 2)
+    bins = OrderedDict([('e', BINNINGS[binning](len(vals) // 2)), ('t', np.arange(3, dtype=float) * 10.0)])
+    return Dataset(np.array(vals, dtype=float).reshape(-1, 2), np.array(errs, dtype=float).reshape(-1, 2), bins=bins, name=name, what='flux')
 
 
 def _datasets(good):
-    if FLAVOUR[0] == '2d-nan':
+    if _flavour()[0] == '2d-nan':
         ref = _ds2([1.0, 2.0, 3.0, 4.0], [0.1, 0.1, 0.1, 0.1], 'ref')
         if good:
             return ref, _ds2([1.01, 2.02, 2.97, 4.03], [0.1, 0.1, 0.1, 0.1], 'close')
@@ -121,6 +174,21 @@ def build_test(kind, good):
     from valjean.gavroche.diagnostics.metadata import TestMetadata
     from valjean.gavroche.diagnostics.stats import TestStatsTasks, TestStatsTests, TestStatsTestsByLabels
     from valjean.cosette.task import TaskStatus
+    NO_ZERR[0] = kind == 'chi2'
+    try:
+        return _build_test(kind, good)
+    finally:
+        NO_ZERR[0] = False
+
+
+def _build_test(kind, good):
+    from valjean.gavroche.test import TestEqual, TestApproxEqual, TestResultFailed
+    from valjean.gavroche.stat_tests.student import TestStudent
+    from valjean.gavroche.stat_tests.bonferroni import TestBonferroni, TestHolmBonferroni
+    from valjean.gavroche.stat_tests.chi2 import TestChi2
+    from valjean.gavroche.diagnostics.metadata import TestMetadata
+    from valjean.gavroche.diagnostics.stats import TestStatsTasks, TestStatsTests, TestStatsTestsByLabels
+    from valjean.cosette.task import TaskStatus
     ref, other = _datasets(good)
 
     def on_datasets(dsa, dsb):
@@ -129,7 +197,7 @@ def build_test(kind, good):
                         TestBonferroni(name='sib-bonferroni', alpha=0.05, test=TestStudent(dsa, dsb, name='sib-inner', ndf=20, alpha=0.05))]
 
     if kind == 'equal':
-        same = (_ds if FLAVOUR[0] == '1d' else _ds2)([1.0, 2.0, 3.0, 4.0], [0.2, 0.2, 0.2, 0.2], 'same')
+        same = (_ds if _flavour()[0] == '1d' else _ds2)([1.0, 2.0, 3.0, 4.0], [0.2, 0.2, 0.2, 0.2], 'same')
         second = same if good else other
         return Built(lambda: TestEqual(ref, second, name='equal', description='equality'), [ref, second], on_datasets(ref, second))
     if kind == 'approx':
@@ -185,7 +253,7 @@ def build_test(kind, good):
         from valjean.javert.templates import TableTemplate, PlotTemplate, TextTemplate, CurveElements, SubPlotElements
         table = TableTemplate(ref.bins['e'][:-1].copy(), ref.value.ravel()[:len(ref.bins['e']) - 1].copy(), other.value.ravel()[:len(ref.bins['e']) - 1].copy(),
                               headers=['e', 'ref', 'other'], highlights=[np.zeros(len(ref.bins['e']) - 1, dtype=bool)] * 2 + [np.array([True] + [False] * (len(ref.bins['e']) - 2))])
-        curve = CurveElements(values=np.array([1.0, 4.0, 2.0]), bins=[np.array([0.0, 1.0, 2.0, 3.0])], legend='user curve',
+        curve = CurveElements(values=np.array([1.0, 4.0, 2.0]), bins=[BINNINGS[_flavour()[1] if _flavour()[1] != 'single' else 'uniform'](3)], legend='user curve',
                               errors=np.array([0.1, 0.2, 0.1]))
         plot = PlotTemplate(subplots=[SubPlotElements(curves=[curve], axnames=['x', 'user quantity'])])
         text = TextTemplate('The user ran this comparison elsewhere.\n\n')
@@ -612,6 +680,78 @@ def apply_op(res, kind, op, verb, origin='evaluate', built=None, turn=0):
 _REDUNDANT = set()
 
 
+# ---- process- / thread-global state a read-only operation could leak into (and a later evaluation depend on)
+_RC0 = [None, None, None]
+
+
+def global_state():
+    import sys
+    import warnings
+    import locale
+    import decimal
+    state = {'np.geterr': tuple(sorted(np.geterr().items())), 'np.get_printoptions': repr(sorted(np.get_printoptions().items())),
+             'warnings.filters': len(warnings.filters), 'os.getcwd': os.getcwd(), 'locale.getlocale': tuple(locale.getlocale()),
+             'decimal.prec': decimal.getcontext().prec}
+    mpl = sys.modules.get('matplotlib')
+    if mpl is not None:
+        if _RC0[0] is None:
+            _RC0[0] = dict(mpl.rcParams)
+        ids = hash(tuple(map(id, dict.values(mpl.rcParams))))      # identity of every value: cheap; the values are digested when it moves
+        if _RC0[1] != ids:
+            _RC0[1:] = [ids, zlib.crc32(repr(list(dict.values(mpl.rcParams))).encode())]
+        state['matplotlib.rcParams'] = _RC0[2]
+    return state
+
+
+def restore_global(state, printopts):
+    """Put back what a sequence leaked, so that the NEXT sequence (and the harness) is not judged under it."""
+    import sys
+    import decimal
+    now = global_state()
+    if now['np.geterr'] != state['np.geterr']:
+        np.seterr(**dict(state['np.geterr']))
+    if now['np.get_printoptions'] != state['np.get_printoptions']:
+        np.set_printoptions(**printopts)
+    if now['os.getcwd'] != state['os.getcwd']:
+        os.chdir(state['os.getcwd'])
+    if now['decimal.prec'] != state['decimal.prec']:
+        decimal.getcontext().prec = state['decimal.prec']
+    if now.get('matplotlib.rcParams') != state.get('matplotlib.rcParams') and 'matplotlib.rcParams' in state:
+        sys.modules['matplotlib'].rcParams.update(_RC0[0])
+
+
+def reevaluate(res, kind, origin, tracker, wrapper=True):
+    """The SAME test object evaluated again on the same datasets (fresh test.evaluate(), and through the wrapper of
+    EvalTestTask), the result obtained the same way: (projection of the duplicate, what happened).  A re-evaluation that
+    raises where the first one returned is a result of another class: the statistics are not the recorded ones."""
+    if kind == 'failed':
+        return tracker.look(copy.deepcopy(res)), ''        # a failed evaluation has no evaluate() of its own to repeat
+    from valjean.gavroche.eval_test_task import actually_eval_test
+    try:
+        made = res.test.evaluate()
+    except Exception as ex:   # pylint: disable=broad-except
+        import logging
+        logging.disable(logging.CRITICAL)
+        try:
+            wrapped = actually_eval_test(res.test)
+        finally:
+            logging.disable(logging.NOTSET)
+        return ((bool(wrapped), tracker._number('stats', ('re-evaluation-raised', type(ex).__name__, type(wrapped).__name__)), 0),   # pylint: disable=protected-access
+                'test.evaluate() raises %s: %s (EvalTestTask records a %s, verdict %r, instead of a %s)'
+                % (type(ex).__name__, ex, type(wrapped).__name__, bool(wrapped), type(res).__name__))
+    look = tracker.look(derive(made, origin)[0])
+    if type(made) is not type(res) and origin == 'evaluate':
+        return (look[0], tracker._number('stats', ('class', type(made).__name__)), look[2]), 'the re-evaluation returns a %s instead of a %s' % (   # pylint: disable=protected-access
+            type(made).__name__, type(res).__name__)
+    if wrapper and look == (look[0], 0, 0):
+        wrapped = actually_eval_test(res.test)
+        if type(wrapped) is not type(made):
+            return ((bool(wrapped), tracker._number('stats', ('class', type(wrapped).__name__)), 0),   # pylint: disable=protected-access
+                    'through EvalTestTask the re-evaluation gives a %s instead of a %s' % (type(wrapped).__name__, type(made).__name__))
+        look = tracker.look(derive(wrapped, origin)[0])
+    return look, ''
+
+
 class Redundant(Exception):
     """The result obtained this way is the very object graph evaluate() returned: covered by the 'evaluate' origin."""
 
@@ -623,6 +763,15 @@ def run_sequence(kind, good, ops, origin='evaluate', skip_redundant=False):
     known = (kind, bool(good), origin, FLAVOUR[0])
     if skip_redundant and known in _REDUNDANT:
         raise Redundant()
+    start = global_state()
+    printopts = np.get_printoptions()
+    try:
+        return _run_sequence(kind, good, ops, origin, skip_redundant, known)
+    finally:
+        restore_global(start, printopts)
+
+
+def _run_sequence(kind, good, ops, origin, skip_redundant, known):
     res, redundant, built = obtain(kind, good, origin)
     if redundant and skip_redundant:
         _REDUNDANT.add(known)      # a property of the result class and of the way of obtaining it, not of the sequence
@@ -630,19 +779,28 @@ def run_sequence(kind, good, ops, origin='evaluate', skip_redundant=False):
     tracker = Tracker(res, built)
     first = tracker.look(res, thorough=not ops)
     events = [dict(op='evaluate', verb=NOVERB, verdict=first[0], stats=first[1], data=first[2],
-                   dupVerdict=first[0], dupStats=0, dupData=0, keys=real_keys(res, kind), exc='')]
+                   dupVerdict=first[0], dupStats=0, dupData=0, keys=real_keys(res, kind), exc='', glob={}, note='', implicit=False)]
     dup = (first[0], 0, 0)
-    for n, op in enumerate(ops):
-        exc = ''
+    # after every history the test is evaluated AGAIN (one more read-only operation, `reeval`, of the trace vocabulary)
+    todo = list(ops) + [dict(op='reeval', verb=NOVERB, implicit=True)]
+    for n, op in enumerate(todo):
+        exc = note = ''
+        before = after if n else global_state()      # the snapshot taken after the previous operation (the harness' own look in between is charged to this one)
         try:
-            made = apply_op(res, kind, op['op'], op['verb'], origin, built, n)
-            if made is not None:
-                dup = tracker.look(made)
+            if op['op'] == 'reeval':
+                dup, note = reevaluate(res, kind, origin, tracker, wrapper=bool(op.get('implicit')))
+            else:
+                made = apply_op(res, kind, op['op'], op['verb'], origin, built, n)
+                if made is not None:
+                    dup = tracker.look(made)
         except Exception as ex:   # pylint: disable=broad-except
             exc = '%s: %s' % (type(ex).__name__, ex)
+        after = global_state()
         now = tracker.look(res, thorough=n == len(ops) - 1)
         events.append(dict(op=op['op'], verb=op['verb'], verdict=now[0], stats=now[1], data=now[2],
-                           dupVerdict=dup[0], dupStats=dup[1], dupData=dup[2], keys=real_keys(res, kind), exc=exc))
+                           dupVerdict=dup[0], dupStats=dup[1], dupData=dup[2], keys=real_keys(res, kind), exc=exc,
+                           glob={k: [str(before[k]), str(after[k])] for k in after if after[k] != before.get(k, after[k])},
+                           note=note, implicit=bool(op.get('implicit'))))
     return events
 
 
@@ -670,11 +828,25 @@ def judge(kind, good, events, origin='evaluate'):
         elif (ev['dupVerdict'], ev['dupStats'], ev['dupData']) != (good, 0, 0):
             what = ({'copy': 'copy-differs', 'pickle': 'pickle-differs', 'reeval': 'not-repeatable'}.get(ev['op'], 'duplicate-differs'),
                     'the %s of the result has verdict %r / statistics #%d / inputs #%d' % (ev['op'], ev['dupVerdict'], ev['dupStats'], ev['dupData']))
+        if what and ev['op'] == 'reeval' and what[0] == 'not-repeatable':
+            # the new dimension: which re-evaluation, and the leaked global state that explains it
+            leak = [(k, e) for k, e in enumerate(events[:n + 1]) if 'np.geterr' in e.get('glob', {})]
+            if leak:
+                k, e = leak[0]
+                what = (what[0], what[1] + '; %s; cause: np.geterr() of the thread changed from %s to %s during operation %d (%s) and was not restored'
+                        % (ev.get('note') or 'the re-evaluation differs', e['glob']['np.geterr'][0], e['glob']['np.geterr'][1], k, e['op']))
+                tail = '/global-state/np.geterr'
+            else:
+                what = (what[0], what[1] + ('; ' + ev['note'] if ev.get('note') else ''))
+                tail = '/re-evaluation' if ev.get('implicit') or ev.get('note') else ''
+            what = what + (tail,)
         if what:
             opname = ev['op'] + ('' if ev['verb'] == NOVERB else '(verbosity %d)' % ev['verb'])
-            key = 'C13/%s/%s%s%s' % (what[0], kind, _suffix(origin), '/sibling-test' if ev['op'] == 'sibling' else '')
+            key = 'C13/%s/%s%s%s' % (what[0], kind, _suffix(origin), '/sibling-test' if ev['op'] == 'sibling' else what[2] if len(what) > 2 else '')
             if n == 0:
                 return n, key, 'right after %s (verdict read once): %s' % (how, what[1])
+            if ev.get('implicit'):
+                opname = 'evaluating the same test again at the end of the history'
             return n, key, 'result obtained by %s, after %s (operation %d of %s): %s' % (
                 how[4:], opname, n, [e['op'] for e in events[1:]], what[1])
     return None
@@ -805,6 +977,7 @@ class _Runner:
         self.raised = {}
         self.unbuildable = {}
         self.drifted = set()
+        self.globs = {}
 
     def run(self, kind, good, ops, source, flavour='1d', origin='evaluate'):
         """Events of the sequence, or None when the result obtained the `origin` way is the very object graph returned
@@ -826,10 +999,19 @@ class _Runner:
         j = judge(kind, good, events, origin)
         if j:
             ctx.violation(j[1], '%s [%s]' % (j[2], source), case, module=MODULE)
+        for k, ev in enumerate(events):
+            for name, (was, now) in sorted(ev.get('glob', {}).items()):
+                seen = self.globs.setdefault((name, ev['op']), [0, ''])
+                seen[0] += 1
+                seen[1] = seen[1] or ('%s changed from %s to %s during operation %d (%s) of %s on a %s result (%s, flavour %s)%s'
+                                      % (name, was[:80], now[:80], k, ev['op'], [o['op'] for o in ops], kind, origin, flavour,
+                                         '' if j else '; no consequence on verdict / statistics / re-evaluation observed'))
         for ev in events:
+            if ev['exc'] and ev['op'] in DRAW_OPS and 'decr' in flavour:
+                continue      # the plotting back-end refuses decreasing edges (the Dataset accepts them): expected, not reported each time
             if ev['exc']:
                 self.raised.setdefault((kind, ev['op'], ev['exc'].split(':')[0]), ev['exc'])
-        if kind in CLASSIFIED and not j and flavour == '1d':
+        if kind in CLASSIFIED and not j and flavour.split('+')[0] == '1d':
             # implementation-level model: predicted key set of the dictionary after every prefix
             for k in range(1, len(events)):
                 hk = _hkey(kind, good, ops[:k])
@@ -1001,15 +1183,17 @@ def _run_c13(ctx, wd, later, plans, simprefix, depth, nsim):
         ops = _ops_of(st['hist'])
         origin = str(st['origin'])
         nsimrun += 1
-        events = runner.run(str(st['kind']), bool(st['good']), ops, 'Observe/simulate', origin=origin)
+        flavour = with_binning('1d', nsimrun)
+        source = 'Observe/simulate' + ('' if flavour == '1d' else '/' + flavour)
+        events = runner.run(str(st['kind']), bool(st['good']), ops, source, flavour, origin)
         if events is None:
             # the directly constructed result is the evaluated one: run the behaviour on it all the same (under its own name)
             nsimred += 1
             origin = 'evaluate'
-            events = runner.run(str(st['kind']), bool(st['good']), ops, 'Observe/simulate', origin=origin)
+            events = runner.run(str(st['kind']), bool(st['good']), ops, source, flavour, origin)
         ctx.distinct(_hkey(str(st['kind']), st['good'], ops, origin))
         if nsimrun % 10 == 0:
-            traces.append((str(st['kind']), bool(st['good']), ops, events, origin))
+            traces.append((str(st['kind']), bool(st['good']), ops, events, origin, flavour))
     if nsimrun < nsim // 2:
         raise tlc.MachineryError('simulation produced only %d behaviours' % nsimrun)
     ctx.count(evaluations=runner.n, traces=runner.n)
@@ -1024,7 +1208,8 @@ def _run_c13(ctx, wd, later, plans, simprefix, depth, nsim):
         ops = random_ops(rng, rng.randint(4, 12))
         origin = ORIGINS[(n // len(combos)) % len(ORIGINS)]
         flavour = '2d-nan' if (n // (len(combos) * len(ORIGINS))) % 2 == 1 and kind in ('equal', 'approx', 'student', 'bonferroni', 'holm', 'chi2') else '1d'
-        source = 'random' if flavour == '1d' else 'random/2d-nan'
+        flavour = with_binning(flavour, n // len(combos))
+        source = 'random' if flavour == '1d' else 'random/' + flavour
         events = runner.run(kind, good, ops, source, flavour, origin)
         if events is None:
             origin = 'evaluate'
@@ -1060,6 +1245,10 @@ def _run_c13(ctx, wd, later, plans, simprefix, depth, nsim):
     if accepted_but_judged:
         raise tlc.MachineryError('ObserveTrace accepts traces the harness judges changed: %s' % accepted_but_judged[:5])
     ctx.count(evaluations=runner.n - n_before, traces=len(batch))
+    for n, ((name, op), (count, text)) in enumerate(sorted(runner.globs.items())):
+        ctx.cov.setdefault('observations', []).append('%s (%d times)' % (text, count))
+        if n < 6:
+            print('OBSERVATION property=%s global state: %s (%d times)' % (ctx.pid, text, count))
     for (kind, op, exc), text in sorted(runner.raised.items()):
         ctx.drift('operation %s on a %s result raised %s' % (op, kind, text[:200]))
     for (kind, origin), text in sorted(runner.unbuildable.items()):
